@@ -46,7 +46,9 @@ func init() {
 			"(E) default-setting: one object schema with property a ∈ {plain, readOnly, writeOnly} × type × default (none / integer / string) × nullable, b with/without default, every required subset, additionalProperties × 8 values × ExcludeReadOnlyValidations × SkipSettingDefaults; (E1b) minProperties × maxProperties × defaults; " +
 			"(E2) defaults inside allOf/anyOf/oneOf members × 7 sibling members (require / forbid / re-declare read-only / additionalProperties false …) × 3 top levels × 5 values × both options; (E3) nested defaults (object defaults completed by their own defaults, items, defaults carrying read-only members, defaults on composition-valued properties) × 17 values; " +
 			"(E4) defaults under media types without body encoder (urlencoded, multipart, text/plain, octet-stream) and under the six JSON media types; " +
-			"then a seeded random stream of nested schemas with compositions, defaults (conforming and not) and property counts × schema-directed values (valid and mutated) × JSON renderings (whitespace, duplicate keys, trailing data, blank) × raw/malformed bodies × media-type sets × headers (also a second header value, several parameters) × MultiError × SkipSettingDefaults. " +
+			"(G) request construction: 15 ways to build the *http.Request (in-memory readers, io.NopCloser, MultiReader, one-byte reader, Body assigned later, chunked, httptest, ContentLength larger/1/zeroed/negative, http.NoBody and nil Body announcing bytes) × 14 body situations × required × ExcludeReadOnlyValidations × SkipSettingDefaults, each also through ValidateRequest and validated 3 times on one object; " +
+			"(H) histories of 1 and 2 RegisterBodyDecoder/UnregisterBodyDecoder operations (3 keys × 3 decoders) × 6 bodies, in a child process; " +
+			"then a seeded random stream of nested schemas with compositions, defaults (conforming and not) and property counts × schema-directed values (valid and mutated) × JSON renderings (whitespace, duplicate keys, trailing data, blank) × raw/malformed bodies × media-type sets × headers (also a second header value, several parameters) × MultiError × SkipSettingDefaults × request construction kind × entry point (ValidateRequestBody / ValidateRequest) × repeated validation. " +
 			"A case is non-trivial when the model reports at least one non-default branch (selection level, decoder, outcome class, read-only handling, composition keywords, default handling, value shape).",
 		Exhaustive: true,
 		Gen:        genC06,
@@ -59,6 +61,7 @@ func init() {
 			"numbers in bodies are integers |n| ≤ 10^6 and n+0.5 (exact in float64); number texts in forms are decimal [+-]digits or [+-]digits.5 without leading zeros, or non-numeric",
 			"encoding/json, net/url.ParseQuery, mime, mime/multipart, yaml3 and encoding/csv are trusted: what they make of the body text is an input of the model; YAML texts stay inside the JSON data model (no timestamps, no non-string keys)",
 			"array properties of form bodies carry items; per-property styles only form/spaceDelimited/pipeDelimited on arrays; object-typed properties inside composition members of a form schema, one name declared as integer and as number, the zip decoder and form decoders nested inside multipart parts are outside the model and not generated",
+			"the shape of a request (kind of Body, ContentLength, GetBody) is what net/http's constructors make of it, computed by the same calls; registry-changing cases run one at a time in a child process; empty registry keys / nil decoders are not generated",
 			"where a default decides the verdict (caseNeutral false) the oracle is the two-phase reading (completed value) for composition-free schemas; for schemas with compositions only implementation vs model is compared",
 		},
 	})
